@@ -271,11 +271,69 @@ def c07_multifile(cut1: int, cut2: int, rot: int) -> bool:
     return ok
 
 
+# ---------------------------------------------------------------- accepted names are used
+NAME_SKIP = ["pickle", "serialize", "serializable", "print", "display", "disp", "delete", "A", "ns", "operator", "static", "template", "typedef", "virtual", "class", "enum",
+             "namespace", "const", "void", "bool", "char", "int", "size_t", "double", "float", "unsigned", "pair", "This", "if", "do", "in", "is", "or", "as"]
+FIRST = pipe.IDENT_FIRST
+REST = pipe.IDENT_REST
+NAMES4 = ["pick", "ickl", "ckle", "pic", "ick", "ckl", "kle", "pickl", "ickle", "seri", "prin", "rint", "dele", "disp", "get_", "set_", "oper", "temp", "This", "self", "this", "obj", "varargin", "nargin", "ptr_", "wrap", "unwrap"]
+
+
+def c07_names_used(first: int, role: int) -> bool:
+    """
+    "Never half-used", generator side: whatever identifier an accepted method, static method or free function is called,
+    both generators emit code calling exactly that member (`obj->NAME(a)` / `self->NAME(a)`, `ns::A::NAME(b)`,
+    `ns::NAME(c)`) — no name is silently dropped (the documented MATLAB exclusion `pickle` and the serialization names
+    aside).  One batch = every identifier of length 1-2 starting with one character, plus longer names around the
+    generators' special words.
+    pre: 0 <= first < len(FIRST) and 0 <= role <= 2
+    post: _
+    """
+    first = pick(first, 0, len(FIRST))
+    role = pick(role, 0, 3) if THOROUGH else first % 3          # quick: one role per first character
+    with concrete():
+        names = [FIRST[first]] + [FIRST[first] + c for c in REST] + [n for n in NAMES4 if n[0] == FIRST[first]]
+        names = [n for n in names if n not in NAME_SKIP]
+        body = ["void %s(int a) const;", "static double %s(double b);", "void %s(int c);"][role]
+        decls = " ".join(body % n for n in names)
+        text = "namespace ns { class A { A(); %s }; %s }" % (decls if role < 2 else "", decls if role == 2 else "")
+        problems = []
+        try:
+            import copy
+            import gtwrap.template_instantiator as _ti
+            parsed = pipe.parse(text)                                  # one parse (the slow step) serves both generators
+            m1 = _ti.instantiate_namespace(copy.deepcopy(parsed))
+            mw = pipe.new_matlab_wrapper()
+            mw.wrap_namespace(m1)
+            mw.generate_wrapper(m1)
+            files = {}
+            pipe.flatten_content(mw.content, "", files)
+            cpp = files.get("mod_wrapper.cpp", "")
+            pw = PybindWrapper(module_name="mod", top_module_namespaces=[''], ignore_classes=[''], module_template=pipe.PYBIND_TPL)
+            pw._submodules = []
+            out = pw.wrap_namespace(_ti.instantiate_namespace(parsed))[0]
+        except Exception as ex:
+            cpp = out = ""
+            problems.append("raised %r" % ex)
+        for n in names:
+            want_m = ["obj->%s(a)", "ns::A::%s(b)", "ns::%s(c)"][role] % n
+            want_p = ["self->%s(a)", "ns::A::%s(b)", "ns::%s(c)"][role] % n
+            if not problems and want_m not in cpp:
+                problems.append("MATLAB: no routine calls %s" % want_m)
+            if not problems and want_p not in out:
+                problems.append("pybind: no binding calls %s" % want_p)
+        ok = not problems or _fail(role=["method", "static method", "free function"][role], problems=problems[:6])
+    reached({"first": FIRST[first], "role": role})
+    return ok
+
+
 def conds(tier):
     q = tier == "quick"
     t = (lambda x, y: x) if q else (lambda x, y: y)
     M = "harness.c07_io"
     return [
+        xh.Cond(M, "c07_names_used", t(300, 900), kind="shape-bounded", path_timeout=60, examples=["first=0, role=0", "first=15, role=1", "first=41, role=2", "first=52, role=0"],
+                bounds="all identifiers of length <= 2 (and %d longer ones around the generators' special words) as the name of a method / static method / free function%s, both generators" % (len(NAMES4), " (one role per first character)" if q else "")),
         xh.Cond(M, "c07_corruption", t(420, 2400), kind="shape-bounded", path_timeout=60, examples=["kind=3, k=17, s=0", "kind=0, k=5, s=0", "kind=4, k=30, s=2"],
                 bounds="5 corruption kinds x %s token positions%s, 6 entry points each" % (("all %d" % NB) if not q else ("every third of %d" % NB), " x 5 stray tokens per position" if not q else " (stray token derived)")),
         xh.Cond(M, "c07_multifile", t(200, 600), kind="shape-bounded", examples=["cut1=2, cut2=4, rot=0", "cut1=1, cut2=1, rot=3", "cut1=0, cut2=3, rot=5", "cut1=2, cut2=2, rot=1", "cut1=3, cut2=6, rot=0"],
